@@ -422,6 +422,32 @@ func (i *interpreter) symIndex(fr *frame, elems []value, idx sym) value {
 		return copyVal(elems[k])
 	}
 	k := kindOf(elems[0])
+	// an index that is a function of one input byte can only hit ≤256 slots:
+	// select among those instead of the whole (possibly huge) table
+	if v := i.singleVar(ix); v != nil && len(elems) > 48 {
+		d := i.p.dom[v]
+		env := map[string]uint64{}
+		seen := map[uint64]bool{}
+		var cand []uint64
+		for x := 0; x < 256; x++ {
+			if d != nil && !d.has(x) {
+				continue
+			}
+			env[v.Name] = uint64(x)
+			if kx := tb.Eval(ix, env); kx < uint64(len(elems)) && !seen[kx] {
+				seen[kx] = true
+				cand = append(cand, kx)
+			}
+		}
+		if len(cand) > 0 {
+			sort.Slice(cand, func(a, b int) bool { return cand[a] < cand[b] })
+			res := i.termOf(elems[cand[len(cand)-1]])
+			for r := len(cand) - 2; r >= 0; r-- {
+				res = tb.Ite(tb.Eq(ix, tb.BV(cand[r], 64)), i.termOf(elems[cand[r]]), res)
+			}
+			return i.mkVal(k, res)
+		}
+	}
 	type run struct {
 		lo, hi int
 		t      *smt.Term
